@@ -237,6 +237,60 @@ type hostDef struct {
 	Node   int
 }
 
+// serviceDefinitions: the scheme priorities in force are those of the latest service definition the client received;
+// a definition without priorities means "any scheme", whatever an earlier definition said.
+func serviceDefinitions(run *ev.Run, d api.D2) {
+	service, cluster := "svcdef", "clusterdef"
+	u := d.NewUris(cluster)
+	ann := []byte(`{"weights":{"http://plain:80":1,"https://secure:443":1}}`)
+	u = d.Apply(u, d.UrisPath(cluster)+"/node1", &ann)
+	res := d.NewResolver(service, cluster, []string{"https"}, u)
+	def := func(schemes string) *[]byte {
+		b := []byte(fmt.Sprintf(`{"serviceName":%q,"clusterName":%q%s}`, service, cluster, schemes))
+		return &b
+	}
+	steps := []struct {
+		name    string
+		payload *[]byte // nil: keep the pre-seeded definition
+		want    map[string]bool
+	}{
+		{"initial [https]", nil, map[string]bool{"https": true}},
+		{"then no prioritizedSchemes member", def(``), map[string]bool{"http": true, "https": true}},
+		{"then [http]", def(`,"prioritizedSchemes":["http"]`), map[string]bool{"http": true}},
+		{"then prioritizedSchemes null", def(`,"prioritizedSchemes":null`), map[string]bool{"http": true, "https": true}},
+		{"then [https,http]", def(`,"prioritizedSchemes":["https","http"]`), map[string]bool{"https": true}},
+		{"then []", def(`,"prioritizedSchemes":[]`), map[string]bool{"http": true, "https": true}},
+	}
+	var history []string
+	for _, st := range steps {
+		if st.payload != nil {
+			res.FeedService(st.payload)
+		}
+		history = append(history, st.name)
+		seen := map[string]bool{}
+		var problem string
+		for i := 0; i < 400; i++ {
+			_, scheme, err := res.Resolve()
+			if err != nil {
+				problem = "resolution failed: " + err.Error()
+				break
+			}
+			seen[scheme] = true
+		}
+		run.Eval(1)
+		run.Count("service_definition_steps", 1)
+		if problem == "" && !reflect.DeepEqual(seen, st.want) {
+			problem = fmt.Sprintf("400 resolutions returned schemes %v, the definition in force allows exactly %v", seen, st.want)
+		}
+		if problem != "" {
+			run.Violation(d.Gen()+"/service-definition/schemes-of-an-earlier-definition-in-force", map[string]any{"generation": d.Gen(), "service_definitions_received": history, "detail": problem,
+				"announced": []string{"http://plain:80 weight 1", "https://secure:443 weight 1"}})
+			return
+		}
+		run.Distinct(d.Gen() + "|service-definition|" + st.name)
+	}
+}
+
 func selectionCase(run *ev.Run, d api.D2, hosts []hostDef, prio []string, draws int, viaResolver bool) {
 	run.Eval(1)
 	// build the announcement set through the real handler
@@ -420,6 +474,7 @@ func main() {
 			}
 			sets = append(sets, s)
 		}
+		serviceDefinitions(run, d)
 		for si, s := range sets {
 			for pi, p := range prios {
 				n := draws
